@@ -121,9 +121,32 @@ NAME_TEMPLATES = ["<%s>x", "<%s></%s>x", "<p><%s>x</p>y", "<b><%s>x</b>y", "<tab
 NAME_CONTEXTS = [(None, False), (None, True), ("div", False), ("td", False), ("select", False), ("table", False)]
 
 
+def foreign_cases():
+    """every entry of the standard's SVG tag-name / attribute-name fix-up tables, of the foreign-attribute table, and every
+    foreign scoping element / integration point, in templates that make the entry matter (names from ref/treebuilder.py)"""
+    from ref import treebuilder as rtb
+    out = []
+    for low in sorted(rtb.SVG_TAGS):
+        out += ["<svg><%s>x" % low, "<svg><%s></%s>y" % (low, low), "<p><svg><%s></p>x" % low, "<svg><%s><p>x" % low, "<math><%s>x" % low,
+                "<svg><%s></%s>y" % (low.upper(), rtb.SVG_TAGS[low])]
+    for low in sorted(rtb.SVG_ATTRS):
+        out += ["<svg %s=1>" % low, "<math %s=1>" % low, "<p %s=1>" % low, "<svg><g %s=1 a=2>" % low.upper()]
+    for k in sorted(rtb.FOREIGN_ATTRS) + ["xlink:x", "xml:base", "xml:x", "xmlns:x", "xlink", "xml"]:
+        out += ["<svg %s=1>" % k, "<math %s=1>" % k, "<p %s=1>" % k, "<svg><g %s=1 b=2>" % k, "<math><mi %s=1>" % k.upper()]
+    out += ["<math definitionurl=1>", "<svg definitionurl=1>", "<math><mi definitionurl=1>", "<p definitionurl=1>"]
+    for host, names in (("svg", ["foreignObject", "desc", "title"]),
+                        ("math", ["mi", "mo", "mn", "ms", "mtext", "annotation-xml", "annotation-xml encoding=text/html",
+                                  "annotation-xml encoding=application/xhtml+xml", "annotation-xml encoding=x"])):
+        for n in names:
+            out += ["<p><%s><%s></p>y" % (host, n), "<b><%s><%s></b>y" % (host, n), "<li><%s><%s><li>y" % (host, n),
+                    "<button><%s><%s><button>y" % (host, n), "<table><tr><td><%s><%s></td>y" % (host, n), "<%s><%s><p>x</p><%s>y" % (host, n, host),
+                    "<%s><%s><mglyph>x" % (host, n), "<%s><%s><svg>x" % (host, n), "<%s><%s><b>x<table>" % (host, n), "<select><%s><%s>x" % (host, n)]
+    return out
+
+
 def name_cases():
     """-> list of (text, container, scripting); fragment parses of foreign content are left out (see DESIGN section 9)"""
-    out = []
+    out = [(t, None, False) for t in foreign_cases()]
     for name in ALL_NAMES:
         for t in NAME_TEMPLATES:
             text = t.replace("%s", name)
